@@ -198,3 +198,147 @@ def lower_augadd(tree):
     if total:
         ast.fix_missing_locations(tree)
     return total
+
+
+# ---------------------------------------------------------------------------------------------------------------------
+# a local table written as a dictionary display and walked once with .items():
+#     T = {"a": x, "b": y}; ...; for k, v in T.items(): BODY      ->      T_0 = x; T_1 = y; T = {...}; ...; BODY[k:="a", v:=T_0]; BODY[k:="b", v:=T_1]
+# The values are taken where the display is evaluated (temporaries), not where the loop runs.
+
+import copy as _copy
+
+
+class _Subst(ast.NodeTransformer):
+    def __init__(self, mapping):
+        self.mapping = mapping
+
+    def visit_Name(self, n):
+        if n.id in self.mapping and isinstance(n.ctx, ast.Load):
+            return ast.copy_location(_copy.deepcopy(self.mapping[n.id]), n)
+        return n
+
+
+def _plain_value(e):
+    return not any(isinstance(x, (ast.Call, ast.Await, ast.Yield, ast.YieldFrom, ast.NamedExpr, ast.ListComp, ast.SetComp, ast.DictComp, ast.GeneratorExp, ast.Lambda, ast.Starred))
+                   for x in ast.walk(e))
+
+
+def _own(fn):
+    """Nodes of fn that are not inside a nested function / class."""
+    out = []
+    stack = list(fn.body)
+    while stack:
+        n = stack.pop()
+        out.append(n)
+        for c in ast.iter_child_nodes(n):
+            if isinstance(c, (ast.FunctionDef, ast.AsyncFunctionDef, ast.ClassDef, ast.Lambda)):
+                continue
+            stack.append(c)
+    return out
+
+
+def _unroll_in(fn):
+    own = _own(fn)
+    parent = {}
+    for n in own + [fn]:
+        for c in ast.iter_child_nodes(n):
+            parent[c] = n
+    done = 0
+    for st in [n for n in own if isinstance(n, ast.Assign)]:
+        if not (len(st.targets) == 1 and isinstance(st.targets[0], ast.Name) and isinstance(st.value, ast.Dict) and 1 <= len(st.value.keys) <= 8):
+            continue
+        D = st.targets[0].id
+        disp = st.value
+        if not all(isinstance(k, ast.Constant) and isinstance(k.value, str) for k in disp.keys) or not all(_plain_value(v) for v in disp.values):
+            continue
+        uses = [n for n in own if isinstance(n, ast.Name) and n.id == D]
+        stores = [n for n in uses if isinstance(n.ctx, (ast.Store, ast.Del))]
+        loads = [n for n in uses if isinstance(n.ctx, ast.Load)]
+        if len(stores) != 1 or not loads:
+            continue
+        loops = []
+        ok = True
+        for ld in loads:
+            a = parent.get(ld)
+            c = parent.get(a)
+            lp = parent.get(c)
+            if not (isinstance(a, ast.Attribute) and a.attr == "items" and isinstance(c, ast.Call) and not c.args and not c.keywords and isinstance(lp, ast.For) and lp.iter is c):
+                ok = False
+                break
+            loops.append(lp)
+        if not ok:
+            continue
+        # the statement list that holds the display, to put the temporaries in front of it
+        holder = parent.get(st)
+        lst = next((getattr(holder, f_) for f_ in ("body", "orelse", "finalbody") if isinstance(getattr(holder, f_, None), list) and st in getattr(holder, f_)), None)
+        if lst is None:
+            continue
+        plans = []
+        for lp in loops:
+            t = lp.target
+            if not (isinstance(t, (ast.Tuple, ast.List)) and len(t.elts) == 2 and all(isinstance(e, ast.Name) for e in t.elts)) or lp.orelse:
+                ok = False
+                break
+            kn, vn = t.elts[0].id, t.elts[1].id
+            bad = False
+            stack = list(lp.body)
+            while stack:
+                n = stack.pop()
+                if isinstance(n, (ast.Break, ast.Continue)):
+                    bad = True
+                if isinstance(n, (ast.For, ast.While, ast.FunctionDef, ast.AsyncFunctionDef, ast.Lambda, ast.ClassDef)):
+                    if any(isinstance(x, ast.Name) and x.id in (kn, vn) and (isinstance(x.ctx, ast.Store) or isinstance(n, (ast.FunctionDef, ast.AsyncFunctionDef, ast.Lambda, ast.ClassDef)))
+                           for x in ast.walk(n)):
+                        bad = True
+                    continue
+                if isinstance(n, ast.Name) and n.id in (kn, vn) and isinstance(n.ctx, (ast.Store, ast.Del)):
+                    bad = True
+                stack.extend(ast.iter_child_nodes(n))
+            lh = parent.get(lp)
+            llst = next((getattr(lh, f_) for f_ in ("body", "orelse", "finalbody") if isinstance(getattr(lh, f_, None), list) and lp in getattr(lh, f_)), None)
+            if bad or llst is None:
+                ok = False
+                break
+            # the loop variables are not read by anything else in the function
+            inside = {id(x) for x in ast.walk(lp)}
+            for other in own:       # another loop that binds the same names itself keeps its own uses
+                if isinstance(other, ast.For) and other is not lp and {kn, vn} & {x.id for x in ast.walk(other.target) if isinstance(x, ast.Name)}:
+                    bound = {x.id for x in ast.walk(other.target) if isinstance(x, ast.Name)}
+                    if {kn, vn} <= bound or not ({kn, vn} - bound) & {x.id for x in ast.walk(other) if isinstance(x, ast.Name)}:
+                        inside |= {id(x) for x in ast.walk(other)}
+            if any(isinstance(x, ast.Name) and x.id in (kn, vn) and id(x) not in inside for x in own):
+                ok = False
+                break
+            plans.append((lp, llst, kn, vn))
+        if not ok or not plans:
+            continue
+        temps = []
+        pre = []
+        for i, v in enumerate(disp.values):
+            tn = "%s__%d" % (D, i)
+            temps.append(tn)
+            pre.append(ast.copy_location(ast.Assign(targets=[ast.Name(id=tn, ctx=ast.Store())], value=v, lineno=st.lineno), st))
+        disp.values = [ast.copy_location(ast.Name(id=tn, ctx=ast.Load()), st) for tn in temps]
+        at = lst.index(st)
+        lst[at:at] = pre
+        for lp, llst, kn, vn in plans:
+            new = []
+            for k, tn in zip(disp.keys, temps):
+                sub = _Subst({kn: ast.Constant(value=k.value), vn: ast.Name(id=tn, ctx=ast.Load())})
+                for b in lp.body:
+                    new.append(sub.visit(_copy.deepcopy(b)))
+            i = llst.index(lp)
+            llst[i:i + 1] = new
+        done += 1
+        return done + _unroll_in(fn)        # positions changed: look again
+    return done
+
+
+def unroll_local_tables(tree):
+    total = 0
+    for fn in [x for x in ast.walk(tree) if isinstance(x, (ast.FunctionDef, ast.AsyncFunctionDef))]:
+        if any(isinstance(x, ast.Attribute) and x.attr == "items" for x in ast.walk(fn)) and any(isinstance(x, ast.Dict) for x in ast.walk(fn)):
+            total += _unroll_in(fn)
+    if total:
+        ast.fix_missing_locations(tree)
+    return total
